@@ -78,6 +78,139 @@ def build_branches(ctx):
     ctx.add(Obligation('C16.Tree._build_branches.sums', z3.And(z3.BoolVal(shape_ok), *cl), where=where,
                        meta=dict(clause='after the loop: descendant_node_count = sum over children of (|nodes| + descendants), width = sum of widths, branch_step = min of steps, children in node order, each built from the branches sharing its node (1..4 children, symbolic counts)', why=why)))
 
+def build_tree(ctx):
+    """Tree._build interpreted from source on branch families given as lists of node tokens (one-, two- and three-way splits,
+    shared prefixes, a start depth > 0), with _build_leaf and _build_branches under contract (the latter is
+    C16.Tree._build_branches.sums).  Clause: the structure holds exactly the maximal segment shared by all its branches from
+    `depth`, with their tick/add steps; a single branch is finalised as a leaf; otherwise _build_branches receives ALL the
+    distinct nodes at the divergence depth in first-occurrence order, every branch, and that depth; open/closed flags,
+    left/right positions and node counts are as documented."""
+    from pytableaux.proof import Tableau
+    from pytableaux.tools.hybrids import qset
+    fn = Tableau.Tree.__dict__['_build'].__func__; fi = source.of_function(fn); where = ctx.under_contract(fi)
+    world = World()
+    class QS(SymVal):
+        def __init__(s): s.items = []
+        def sym_getattr(s, it, n):
+            if n == 'add':
+                def add(it, x):
+                    if not any(x is y for y in s.items): s.items.append(x)
+                return Contract(add, 'qset.add (C18)')
+            raise Outside(f'qset.{n}')
+        def sym_len(s, it): return len(s.items)
+        def sym_iter(s, it): return list(s.items)
+        def sym_truth(s, it): return bool(s.items)
+    world.builtin_models[qset] = lambda it, xs=(): QS()
+    class Br(SymVal):
+        def __init__(s, name, nodes, closed): s.name, s.nodes, s.closed = name, nodes, closed
+        def sym_len(s, it): return len(s.nodes)
+        def sym_getitem(s, it, d):
+            if isinstance(d, int) and -len(s.nodes) <= d < len(s.nodes): return s.nodes[d]
+            raise PyExc(IndexError, (d,))
+        def sym_is(s, it, o): return s is o
+        def sym_truth(s, it): return True
+    class TabM(SymVal):
+        def __init__(s, added, ticked): s.added, s.ticked = added, ticked
+        def sym_getattr(s, it, n):
+            if n == 'flag': return Holder(CLOSED='CLOSED')
+            if n == 'stat':
+                def stat(it, branch, *keys):
+                    if len(keys) == 1 and str(getattr(keys[0], 'name', keys[0])) == 'FLAGS': return frozenset(['CLOSED']) if branch.closed else frozenset()
+                    if len(keys) == 2:
+                        k = str(getattr(keys[1], 'name', keys[1]))
+                        if k == 'STEP_ADDED': return s.added[keys[0].name]
+                        if k == 'STEP_TICKED': return s.ticked.get(keys[0].name)
+                    raise Outside(f'Tableau.stat{keys}')
+                return Contract(stat, 'Tableau.stat')
+            raise Outside(f'Tableau.{n}')
+    class Cls(SymVal):
+        def __init__(s): s.leaf = []; s.split = []
+        def sym_call(s, it, args, kw):
+            return TreeV('tree', nodes=LocalList(), ticksteps=LocalList(), children=LocalList(), step=None, descendant_node_count=0, width=0, has_open=False, has_closed=False, root=False)
+        def sym_getattr(s, it, n):
+            if n == '_build_leaf':
+                def bl(it, tab, tree, branch, memo): s.leaf.append((branch, dict(memo)))
+                return Contract(bl, 'Tree._build_leaf')
+            if n == '_build_branches':
+                def bb(it, tab, tree, branches, nodes, depth, memo): s.split.append((list(it.iterate(branches)), list(it.iterate(nodes)), depth, dict(memo)))
+                return Contract(bb, 'Tree._build_branches (C16.Tree._build_branches.sums)')
+            raise Outside(f'Tree.{n}')
+    def N(name): 
+        t = Tok(name); t.name = name; return t
+    names = 'a b c d e f g'.split()
+    nd = {n: N(n) for n in names}
+    fams = [
+        ('one branch', [['a', 'b', 'c']], 0, [False]),
+        ('one closed branch', [['a', 'b']], 0, [True]),
+        ('two-way split after a shared prefix', [['a', 'b', 'c'], ['a', 'b', 'd']], 0, [False, True]),
+        ('three-way split', [['a', 'b'], ['a', 'c'], ['a', 'd']], 0, [True, True, False]),
+        ('three-way split, first two branches share their node', [['a', 'b', 'e'], ['a', 'b', 'f'], ['a', 'c'], ['a', 'd']], 0, [False, False, False, False]),
+        ('four-way split at the root', [['a'], ['b'], ['c'], ['d']], 0, [True, True, True, True]),
+        ('sub-structure from depth 1', [['a', 'b', 'c'], ['a', 'b', 'd'], ['a', 'b', 'e']], 1, [False, False, True]),
+        ('split at the start depth', [['a', 'b'], ['a', 'c']], 1, [False, False]),
+    ]
+    bad = None; und = None
+    for label, fam, depth0, closed in fams:
+        added = {n: i + 1 for i, n in enumerate(names)}; added['b'] = 0
+        ticked = {'a': 5}
+        def run(path, fam=fam, depth0=depth0, closed=closed):
+            it = Interp(path, world)
+            brs = [Br(f'b{i}', [nd[x] for x in seq], closed[i]) for i, seq in enumerate(fam)]
+            cls = Cls()
+            memo = None if depth0 == 0 else LocalDict(pos=7, depth=1, distinct_nodes=3, root=Tok('root'))
+            tree = it.call_source(fi, fn, Tableau.Tree, [cls, TabM(added, ticked), LocalList(brs), depth0, memo], {})
+            return tree, cls, brs, memo
+        try:
+            prs = explore(run)
+        except Outside as e:
+            und = f'outside subset: {e}'; break
+        if len(prs) != 1 or prs[0].kind != 'return':
+            bad = dict(family=label, outcome=[str(p.kind) + ':' + str(p.value)[:80] for p in prs]); break
+        tree, cls, brs, memo = prs[0].value
+        # reference
+        d = depth0; seg = []
+        while all(len(f) > d for f in fam) and len({f[d] for f in fam}) == 1: seg.append(fam[0][d]); d += 1
+        div = []
+        for f in fam:
+            if len(f) > d and f[d] not in div: div.append(f[d])
+        got_nodes = [n.name for n in tree.f['nodes']]
+        probs = []
+        if got_nodes != seg: probs.append(f'nodes {got_nodes} != shared segment {seg}')
+        if list(tree.f['ticksteps']) != [ticked.get(n) for n in seg]: probs.append('ticksteps')
+        want_step = min([added[n] for n in seg], default=None)
+        if tree.f['step'] != want_step: probs.append(f"step {tree.f['step']} != {want_step}")
+        if len(fam) == 1:
+            if not (len(cls.leaf) == 1 and cls.leaf[0][0] is brs[0] and not cls.split): probs.append('a single branch is not finalised as a leaf')
+        else:
+            if not (len(cls.split) == 1 and not cls.leaf): probs.append('children are not built exactly once')
+            else:
+                b_, n_, d_, m_ = cls.split[0]
+                if [x.name for x in n_] != div: probs.append(f'_build_branches received the nodes {[x.name for x in n_]}, the distinct nodes at the divergence depth are {div}')
+                if [x for x in b_] != brs: probs.append('_build_branches did not receive every branch')
+                if d_ != d: probs.append(f'_build_branches received depth {d_}, the divergence depth is {d}')
+                if m_.get('depth') != (1 if depth0 == 0 else 2): probs.append('memo depth not incremented for the children')
+            if bool(tree.f['has_closed']) != any(closed) or bool(tree.f['has_open']) != (not all(closed)): probs.append('has_open / has_closed')
+        if tree.f.get('structure_node_count') != tree.f['descendant_node_count'] + len(seg): probs.append('structure_node_count')
+        want_left = 1 if depth0 == 0 else 8
+        if tree.f.get('left') != want_left or tree.f.get('right') != want_left + 1 or tree.f.get('depth') != (0 if depth0 == 0 else 1): probs.append(f"left/right/depth {tree.f.get('left')}, {tree.f.get('right')}, {tree.f.get('depth')}")
+        if depth0 == 0 and (tree.f.get('root') is not True or tree.f.get('distinct_nodes') != len(seg)): probs.append('root / distinct_nodes')
+        if depth0 != 0 and memo.get('distinct_nodes') != 3 + len(seg): probs.append('memo distinct_nodes')
+        if probs: bad = dict(family=label, branches=fam, start_depth=depth0, problems=probs); break
+    if und: return ctx.add_result(Result('C16.Tree._build.segment-and-split', 'unknown', detail=und, where=where))
+    ctx.add(enum_ob('C16.Tree._build.segment-and-split', bad is None, where=where, cex=bad, families=len(fams),
+                    clause='a structure holds exactly the maximal node segment shared by all its branches; one branch -> leaf; otherwise every distinct node at the divergence depth (in first-occurrence order), every branch and that depth go to _build_branches; flags, steps, positions and counts as documented'))
+
+def replay_build_tree(r):
+    "a real tableau with a three-way split: every branch of the tableau must be a root-to-leaf path of the tree"
+    from pytableaux.proof import Tableau
+    from pytableaux.lang import Argument
+    out = []
+    for L, a in (('K3W', 'a:NAab'), ('B3E', 'c:EAcaUbc'), ('K3W', 'NUab:ABNacc:CaNb'), ('CPL', 'a:Aab')):
+        t = Tableau(L, Argument(a)).build()
+        prob = check_tree(t)
+        if prob: out.append(f'{L} {a}: {prob}')
+    return dict(reproduced=bool(out), detail='; '.join(out)[:600] or 'trees of the sample tableaux are faithful')
+
 # ------------------------------------------------------------------ listeners of Tableau.__listen_on
 
 def listeners(ctx):
@@ -385,16 +518,18 @@ def bounded_traces(ctx):
 def run(ctx):
     ctx.level = 'other'
     ctx.drop('type annotations', 'docstrings')
-    ctx.trust('EventEmitter.emit calls every registered listener once in registration order (tools/events.py; bounded only)', 'Tree._build as a whole (recursion over a mutable memo, grouping by shared prefix) is bounded: runtime contracts on every finished tableau of the corpus',
+    ctx.trust('EventEmitter.emit calls every registered listener once in registration order (tools/events.py; bounded only)', 'Tree._build is interpreted on eight branch families (splits of width 1-4, shared prefixes, a start depth > 0) with its two callees under contract; arbitrary families are covered by the bounded stand-in: runtime contracts on every finished tableau of the corpus',
               'Branch.append contracts come from C06; AdzHelper._apply from the shared structural obligation')
     ctx.assume('CPython semantics of the interpreted subset as encoded by pyvc/interp.py')
-    ctx.explanation = ('Proved: the five listener closures of Tableau.__listen_on (interpreted from source over token models), Tree._build_branches (symbolic child counts: sums and minimum), Branch.closed, AdzHelper._apply. '
+    ctx.explanation = ('Proved: the five listener closures of Tableau.__listen_on (interpreted from source over token models), Tree._build (segment/split on eight branch families, callees under contract), Tree._build_branches (symbolic child counts: sums and minimum), Branch.closed, AdzHelper._apply. '
                        'Bounded: the bookkeeping invariant re-checked after the trunk and after every step of seeded proofs in all logics through the public API, tree shape and counts and statistics recomputed after finishing.')
     build_branches(ctx)
+    build_tree(ctx)
     listeners(ctx)
     branch_methods(ctx)
     structs.adz_apply_obligations(ctx, 'C16')
     bounded_traces(ctx)
+    ctx.replayers['C16.Tree._build.'] = replay_build_tree
     ctx.replayers['C16.'] = lambda r: dict(reproduced=None, detail='see counterexample / meta')
 
 def replay(payload):
